@@ -100,6 +100,17 @@ CHECKS = {
         "Trusted: CPython ints. Synthetic zones built from generated yearly rules extend the search beyond the bundled data.",
         "DESIGN.md §2 C04",
     ),
+    "C06": (
+        "exploration",
+        "differential testing against an independent interpreter of the .nzd bytes and of the yearly rules (enumerated zones/periods/transitions)",
+        "ref/nzd.py decodes both real database files from the documented format and ref/tzrules.py evaluates the "
+        "recurring tails with plain Gregorian arithmetic; every stored period and the rule-generated transitions of "
+        "sampled years (quick) or every interval through 9999 (thorough, exhaustive=true) must equal the library's "
+        "zone intervals name-for-name and nanosecond-for-nanosecond; plus id list, aliases under their alias id, "
+        "version, validate(), every fixed-offset id (all 129601 in thorough) and near-miss ids resolving to nothing.",
+        "Trusted: ref/nzd.py + ref/tzrules.py (share no code with pyoda_time), ref/calendars Gregorian arithmetic.",
+        "DESIGN.md §2 C06",
+    ),
     "C09": (
         "exploration",
         "Hypothesis property-based testing: day-number and month-line reference models, documented year rules, algebraic laws of Period.between/normalize",
